@@ -408,3 +408,26 @@ def c07(ctx):
     rnd = ctx.path("cases-b.ndjson")
     vlib.harness(["gen", "multigen", ctx.seed, 1500 if q else 20000, rnd])
     vlib.exec_and_judge(ctx, "multigen", rnd, "Trace_MultiGen", "B", sample_keys=keys)
+
+
+# ---------------------------------------------------------------------------
+@prop("C06", "batched", "Trace_Batched")
+def c06(ctx):
+    q = ctx.quick()
+    mn = 4 if q else 5
+    ctx.rule = ("MC: Batched.tla, all size sequences up to length 4 over {0,1,2,4} x limit 1..5 x prefetch 1..2 x 2 limit types "
+                "x 4 modes, every permutation / window choice of the shuffled modes; A: the same space (length <=%d, raw limit "
+                "and prefetch from 0) and all window-search inputs replayed on the real iterator, twice per seed; B: random "
+                "runs up to 40 items. non-trivial = >=2 batches, one with >1 item" % mn)
+    ctx.assumptions = ["the shuffle buffer is a bag in the spec (the code re-shuffles it on every call)"]
+    cfg = ("CONSTANTS SizeSet = {0,1,2,4} MaxN = 4 MaxLimit = 5 MaxPf = 2\nSPECIFICATION Spec\n"
+           "INVARIANTS NoLoss LimitInv PlainInv DoneInv SubseqInv\nPROPERTIES Terminates\nCHECK_DEADLOCK FALSE\n")
+    vlib.mc(ctx, "Batched", cfg, name="Batched", workers=8)
+    gcfg = "CONSTANTS SizeSet = {0,1,2,4} MaxN = %d MaxLimit = 5 MaxPf = 2\nINIT Init\nNEXT Next\nCHECK_DEADLOCK FALSE\n" % mn
+    cases, n = vlib.tlc_generate(ctx, "Gen_Batched", gcfg, "cases-a.ndjson")
+    keys = ["kind", "sizes", "sort", "shuffle", "pf", "limit", "ltype", "batches", "windows"]
+    vlib.exec_and_judge(ctx, "batched", cases, "Trace_Batched", "A", sample_keys=keys)
+    ctx.exhaustive = True
+    rnd = ctx.path("cases-b.ndjson")
+    vlib.harness(["gen", "batched", ctx.seed, 3000 if q else 30000, rnd])
+    vlib.exec_and_judge(ctx, "batched", rnd, "Trace_Batched", "B", sample_keys=keys)
